@@ -218,9 +218,17 @@ theorem fresh_of_firstTaken {refs : List Ref} {n : Name} (h : firstTaken refs n 
   have := hall _ hm
   simp [hasMeaning, hl] at this
 
+theorem judge_word {refs : List Ref} {n : Name} {df : Defn} {r : Ref} (h : judge refs n df = .accepted r) :
+    judgeWord refs n df = .accepted r := by
+  unfold judge at h
+  split at h
+  · exact h
+  · simp at h
+
 theorem judge_accepted {refs : List Ref} {n : Name} {df : Defn} {r : Ref} (h : judge refs n df = .accepted r) :
     firstTaken refs n = none ∧ r.name = n := by
-  unfold judge at h
+  have h := judge_word h
+  unfold judgeWord at h
   split at h
   · simp at h
   · next hft =>
@@ -256,6 +264,7 @@ theorem judgeAll_conservative (defs : List (Name × Defn)) :
       | ambiguous s => simp only [acceptedOf, grow]; exact ih refs
       | badDefinition e => simp only [acceptedOf, grow]; exact ih refs
       | unsupported => simp only [acceptedOf, grow]; exact ih refs
+      | notAWord => simp only [acceptedOf, grow]; exact ih refs
 
 theorem defValue_text {refs : List Ref} {s : List Char} {v : Val} {tol : Rat}
     (h : defValue refs (.text s) = .ok (v, tol)) : evalStr (cfgOf refs) s = .ok v := by
@@ -275,7 +284,8 @@ theorem defValue_text {refs : List Ref} {s : List Char} {v : Val} {tol : Rat}
 
 theorem judge_accepted_value {refs : List Ref} {n : Name} {df : Defn} {r : Ref} (h : judge refs n df = .accepted r) :
     ∃ tol, defValue refs df = .ok (⟨.exact r.value, r.dim⟩, tol) := by
-  unfold judge at h
+  have h := judge_word h
+  unfold judgeWord at h
   split at h
   · simp at h
   · split at h
